@@ -99,8 +99,9 @@ Record asers := mkAsers { s_start : mser; s_success : mser; s_failure : mser }.
 Definition C_BaseException : atom := 1%positive.
 Definition C_Exception : atom := 2%positive.
 Definition C_KeyError : atom := 3%positive.
-(* KeyError(key): its text is determined by the missing key *)
-Definition key_error (k : key) : exn := mkExn 0 C_KeyError k false.
+(* KeyError(key): its text is determined by the missing key (text atoms 1000+k are
+   reserved for it, apart from the atoms of application values) *)
+Definition key_error (k : key) : exn := mkExn 0 C_KeyError (1000 + k)%positive false.
 
 (* serializer.serialize(message): in place, field by field; stops at the first failure *)
 Fixpoint serialize (s : mser) (m : msg) : result msg :=
@@ -434,7 +435,8 @@ Inductive op :=
 | OAddDests (ds : list dest)
 | ORemoveDest (id : nat)
 | OAddGlobals (fs : fields)
-| OProbe.                                             (* observe current_action() *)
+| OProbe                                              (* observe current_action() *)
+| ORawWrite (m : fields) (ser : option mser).         (* Logger().write(dictionary, serializer) *)
 
 Fixpoint resend (c : nat) (s : state) (ms : list msg) : state :=
   match ms with
@@ -521,6 +523,7 @@ Definition api (c : nat) (s : state) (o : op) : state :=
       end
   | OAddGlobals fs => set_globals s (fupdate (globals s) fs)
   | OProbe => add_probe s c
+  | ORawWrite m ser => logger_write c s (mkfields m) ser
   end.
 
 Definition run (ops : list (nat * op)) (s : state) : state :=
